@@ -95,7 +95,7 @@ pub fn has_quarantined_trigger(t: &Trace) -> bool {
 pub const QUARANTINED_OPS: &[&str] = &["set_layer_size", "clear_layer", "scroll_area_up", "scroll_area_down", "scroll_area_left", "scroll_area_right", "center", "stamp_layer_down"];
 
 /// state that steers the operations; not edits
-pub const STEER: &[(&str, usize)] = &[("set_current_layer", 1), ("set_caret", 2)];
+pub const STEER: &[(&str, usize)] = &[("set_current_layer", 1), ("set_caret", 2), ("set_mirror_mode", 1)];
 
 const SAUCE_FONTS: [&str; 4] = ["IBM VGA", "IBM VGA50", "Amiga Topaz 1", "no such font"];
 
@@ -304,6 +304,11 @@ pub fn apply(st: &mut EditState, name: &str, args: &[i64], hex: &str) -> Result<
         }
         "set_caret" => {
             st.get_caret_mut().set_position(Position::new(i32a(0), i32a(1)));
+            Ok(())
+        }
+        "set_mirror_mode" => {
+            // an editor setting, not document state: typed characters are mirrored at the vertical axis
+            st.set_mirror_mode(a(args, 0) != 0);
             Ok(())
         }
         "set_char" => {
@@ -711,6 +716,7 @@ fn gen_args(rng: &mut Rng, name: &str, w: i64, h: i64, layers: i64) -> Vec<i64> 
         "set_current_layer" => vec![layer(rng)],
         // the caret of an editor is always on a cell of the document
         "set_caret" => vec![coord(rng, w), coord(rng, h)],
+        "set_mirror_mode" => vec![rng.range(0, 1)],
         "switch_to_palette" => vec![rng.range(0, 8)],
         // 7 and above (a SAUCE record carrying a size other than the document's) is quarantined
         "update_sauce_data" => vec![rng.range(0, if std::env::var("VERIF_NO_QUARANTINE").is_ok() { 8 } else { 6 })],
